@@ -35,6 +35,27 @@ def ops_for(tname, ngc, constructed=True):
     return ops
 
 
+# size classes of the argument of the size-dependent operations, relative to the current value:
+# e(mpty) s(horter) q (equal) l(onger); for push_at / pop_at / rem: l = at the last position instead of the first.
+# The unsuffixed operation keeps the fixed argument of the basic matrix.
+SIZED = {'String': {'assign': 'esql', 'concat': 'esql', 'append': 'esql', 'resize': 'esql', 'print_to': 'sql'},
+         'Tuple': {'assign': 'esql', 'concat': 'esql', 'resize': 'es', 'push_at': 'l', 'pop_at': 'l', 'rem': 'l'}}
+
+
+def stack_buffer(p):
+    """the object's buffer is not heap memory: every reallocating member must refuse whatever the sizes"""
+    return p.split(':')[0] in ('stack', 'zip_stack') or p in ('tget:stack', 'titer:stack')
+
+
+def sized_ops(ot, p):
+    out = []
+    for op, classes in SIZED.get(ot, {}).items():
+        if ot == 'Tuple' and op == 'resize' and stack_buffer(p):
+            classes = 'esql'      # (on a heap Tuple resize to >= len raises FormatError before anything: not a size class of interest)
+        out += ['%s@%s' % (op, c) for c in classes]
+    return out
+
+
 def producers():
     """-> list of (T, K, V, producer, type of the produced object, constructed?)"""
     out = []
@@ -103,8 +124,10 @@ def producers():
 
 
 MATCHED = {      # producer -> histories whose total number of releases the property fixes
-    0: {'new': ['del', 'del,sweep', 'sweep', 'sweep,sweep', 'del,sweep,sweep'],
-        'copy': ['del', 'del,sweep', 'sweep'],
+    # del_stopped = stop(current(GC)); del(x); start(current(GC)): on the unchanged tree the deletion is deferred
+    # (finding F2 of C06) and the object is released exactly once by the sweep that follows
+    0: {'new': ['del', 'del,sweep', 'sweep', 'sweep,sweep', 'del,sweep,sweep', 'del_stopped,sweep', 'del_stopped,sweep,sweep'],
+        'copy': ['del', 'del,sweep', 'sweep', 'del_stopped,sweep'],
         'alloc': ['sweep', 'sweep,sweep', 'dealloc,sweep', 'dealloc,sweep,sweep'],
         'new_root': ['del_root', 'del_root,sweep', 'sweep', 'sweep,sweep'],
         'alloc_root': ['sweep'],
@@ -142,6 +165,9 @@ def matrix():
                 if excluded(ngc, T, p, op):
                     continue
                 cases.append('%d %s %s %s %s %s' % (ngc, T, K, V, p, op))
+            if constructed:
+                for op in sized_ops(ot, p):
+                    cases.append('%d %s %s %s %s %s' % (ngc, T, K, V, p, op))
             for h in MATCHED[ngc].get(base, []):
                 if T == 'Range' and base.startswith('alloc'):
                     continue
@@ -188,6 +214,12 @@ def random_histories(rng, n):
                 if shrunk:
                     h[i] = rng.choice(['push', 'append', 'concat'])
                 shrunk = True
+        # argument sizes: any class for a String; for a Tuple only where everything is refused anyway (the model
+        # has no element count)
+        for i, o in enumerate(h):
+            if o in SIZED.get(ot, {}) and (ot == 'String' or stack_buffer(p)) and rng.random() < .6:
+                cl = 'esql' if (ot == 'Tuple' and o == 'resize') else SIZED[ot][o]
+                h[i] = '%s@%s' % (o, rng.choice(cl))
         out.append('%d %s %s %s %s %s' % (ngc, T, K, V, p, ','.join(h)))
     return out
 
